@@ -263,11 +263,12 @@ func compare(t vt.TB, variant string, got, want map[ident][]float64, ctxDesc str
 }
 
 type cfg struct {
-	batch    int
-	compress bool
-	mask     gostatsd.TimerSubtypes
-	pcts     []float64
-	limit    uint32
+	batch        int
+	resourceKeys []string
+	compress     bool
+	mask         gostatsd.TimerSubtypes
+	pcts         []float64
+	limit        uint32
 }
 
 func datapointGen() *rapid.Generator[*gostatsd.Metric] {
@@ -346,6 +347,9 @@ func cfgGen() *rapid.Generator[cfg] {
 		c := cfg{batch: rapid.SampledFrom([]int{1, 2, 3, 7, 22, 60}).Draw(t, "batch"), compress: rapid.Bool().Draw(t, "compress"),
 			limit: rapid.SampledFrom([]uint32{math.MaxUint32, 2, 1}).Draw(t, "hist-limit")}
 		c.pcts = rapid.SampledFrom([][]float64{nil, {90}, {90, -10}, {50}}).Draw(t, "percentiles")
+		// otlp resource_keys: the tags with these keys move from the datapoint to the resource, the flush then spreads over
+		// several resources; the series and the per-request limit stay what they were
+		c.resourceKeys = rapid.SampledFrom([][]string{nil, {"env"}, {"env", "region"}, {"svc", "window", "nokey"}}).Draw(t, "otlp-resource-keys")
 		if rapid.IntRange(0, 2).Draw(t, "masked") == 0 {
 			b := func(n string) bool { return rapid.Bool().Draw(t, n) }
 			c.mask = gostatsd.TimerSubtypes{Lower: b("l"), Upper: b("u"), Count: b("c"), CountPerSecond: b("cps"), Mean: b("m"), Median: b("md"), StdDev: b("sd"), Sum: b("s"), SumSquares: b("ss"),
@@ -410,7 +414,7 @@ func TestPayloadsCarryEverySeriesOnce(t *testing.T) {
 	rapid.Check(t, func(t *rapid.T) {
 		c := cfgGen().Draw(t, "config")
 		mm := flushMap(t, c, rapid.Bool().Draw(t, "idle-flush"))
-		desc := fmt.Sprintf("batch=%d compress=%v mask=%+v pcts=%v limit=%d map=%v", c.batch, c.compress, c.mask, c.pcts, c.limit, gen.DescribeMap(mm))
+		desc := fmt.Sprintf("batch=%d compress=%v mask=%+v pcts=%v limit=%d resource-keys=%v map=%v", c.batch, c.compress, c.mask, c.pcts, c.limit, c.resourceKeys, gen.DescribeMap(mm))
 		multiPayload, hasHist, hasPct := false, false, false
 		mm.Timers.Each(func(_, _ string, tm gostatsd.Timer) {
 			hasHist = hasHist || tm.Histogram != nil
@@ -418,7 +422,7 @@ func TestPayloadsCarryEverySeriesOnce(t *testing.T) {
 		})
 		masked := c.mask != (gostatsd.TimerSubtypes{})
 		for _, name := range httpChecked {
-			kit, err := bk.New(variant(name), bk.Options{Batch: c.batch, Compress: c.compress, Disabled: c.mask})
+			kit, err := bk.New(variant(name), bk.Options{Batch: c.batch, Compress: c.compress, Disabled: c.mask, ResourceKeys: c.resourceKeys})
 			if err != nil {
 				t.Fatalf("%v", err)
 			}
